@@ -160,6 +160,7 @@ def check_C13(ctx, rep):
         # R32 exact zero analysis: with a zero argument no division by a definite zero is reached
         check_zero_division(fx, "TwoFloat::cbrt", t, b)
     check_powi(fx)
+    check_powi_loop(fx)
     rep.floor("R31", len([o2 for o2 in rep.obl if o2["rule"] == "R31"]), 3, "root functions")
 
 def check_zero_division(fx, ident, t, b):
@@ -254,9 +255,6 @@ def check_powi(fx):
                 calls.append(cb.ident() if cb else r["def"])
             else:
                 calls.append(F.norm_path(r["def"]))
-    need = {"TwoFloat::recip": 2, "<TwoFloat as core::ops::MulAssign<&TwoFloat>>::mul_assign": 1, "<TwoFloat as core::ops::MulAssign<TwoFloat>>::mul_assign": 1}
-    miss = [k for k, c in need.items() if calls.count(k) < c]
-    rep.check(not miss, "R26", "powi square-and-multiply calls", "powi-calls", "powi no longer calls %s (calls: %s)" % (miss, sorted(set(calls))), where=H.where(b), detail=sorted(set(calls)))
     absent = [c for c in calls if c in ("core::num::<impl i32>::abs",)]
     rep.check(not absent, "R26", "powi exponent magnitude without overflow", "powi-abs", "powi takes |n| with i32::abs, which overflows for i32::MIN", where=H.where(b),
               detail="uses %s" % [c for c in calls if "abs" in c])
@@ -667,7 +665,7 @@ def check_kernel_approx(fx, name, table, kind):
     words = F.words_from_hex(table[2])
     coeffs = [_Fr(oracle.f64_of(words[2 * i])) + _Fr(oracle.f64_of(words[2 * i + 1])) for i in range(len(words) // 2)]
     try:
-        a, r = approx.kernel_error(kind, coeffs, X, nterms=48)
+        a, r = approx.kernel_error(kind, coeffs, X, nterms=(18 if kind in ('sin', 'cos') else 34) + (14 if fx.rep.tier == 'thorough' else 0))
     except Exception as e:
         rep.fail("R43", "%s kernel approximation" % name, "approx-failed:" + kind, "could not bound the %s kernel: %r" % (kind, e)); return
     msgs = []
@@ -865,3 +863,76 @@ def check_odd(fx, ident):
     rep.check(m1 is m2 and s1 != s2, "R48", ident + " odd symmetry", "odd:" + ident,
               "%s(-x) does not normalise to -%s(x): %s vs %s" % (ident, ident, vg.show(m2)[:200], vg.show(m1)[:200]), where=H.where(b),
               detail="f(-x) = -f(x) by the operator-level lemmas (algebra Z)", algebra="Z")
+
+# ---------------------------------------------------------------- R26 powi loop structure (havoc analysis)
+
+def check_powi_loop(fx):
+    rep = fx.rep; f = fx.f
+    b = f.get("TwoFloat::powi")
+    if b is None:
+        return
+    ex = vg.Exec(f, vg.Policy(f, "op"), loops="havoc")
+    try:
+        t = ex.run_body(b)
+    except vg.Unsupported as u:
+        rep.fail("R26", "powi loop", "unsupported:powi", "cannot analyse powi: %s" % u, where=H.where(b)); return
+    N = fx.N
+    t = vg.map_tree(t, N.norm)
+    def fail(msg):
+        rep.fail("R26", "powi square-and-multiply loop", "powi-loop", "powi's general case is not binary exponentiation on |n| followed by an optional reciprocal: " + msg, where=H.where(b),
+                 data={"tree": vg.show(t)[:3000]})
+    if t[0] != "switch" or t[1] is not P(1):
+        return fail("no dispatch on the exponent")
+    arms = dict(t[2])
+    one = N.norm(TFv(1.0, 0.0).t)
+    s = P(0)
+    nan_or_one = arms.get(0)
+    ok0 = nan_or_one is not None and D.equivalent(nan_or_one, IF(fcmp("eq", V(s, "TF").hi, 0.0), IF(fcmp("eq", V(s, "TF").lo, 0.0), NAN_LEAF, ("leaf", one, ())), ("leaf", one, ())), leaf_eq_nan) is None
+    ok1 = arms.get(1) == ("leaf", s, ())
+    okm1 = arms.get(0xFFFFFFFF) == ("leaf", mk("call", "TwoFloat::recip", s), ())
+    rep.check(ok0 and ok1 and okm1, "R26", "powi special cases n = 0, 1, -1", "powi-special",
+              "powi special cases deviate: n=0 -> (0^0 ? NaN : 1) %s; n=1 -> self %s; n=-1 -> recip %s" % (ok0, ok1, okm1), where=H.where(b), detail="0 -> NaN for 0^0 else 1; 1 -> self; -1 -> recip(self)")
+    g = t[3]
+    entries = [e for e in ex.loop_entries if e[0] == b.ident()]
+    if not entries:
+        return fail("no loop found")
+    entry = entries[0][2]
+    hv_of = {hv: (l, before) for l, (before, hv) in entry.items()}
+    # shape: if N > 0 { if (N & 1) != 0 {back} else {back} } else { if n > 0 {ret R} else {ret recip(R)} }
+    if g[0] != "if" or tag(g[1]) != "cmp" or g[1][1] != "gt" or tag(g[1][3]) != "havoc":
+        return fail("loop condition is not `remaining exponent > 0`")
+    Nn = g[1][3]
+    body, exit_ = g[2], g[3]
+    # n == 0 was dispatched earlier, so n > 0 and n >= 0 select the same arm here
+    if exit_[0] != "if" or exit_[1] not in (mk("cmp", "gt", "i32", P(1), mk("const", "i32", 0)), mk("cmp", "ge", "i32", P(1), mk("const", "i32", 0))):
+        return fail("result is not selected by n > 0")
+    rpos, rneg = exit_[2], exit_[3]
+    if rpos[0] != "leaf" or tag(rpos[1]) != "havoc" or rneg != ("leaf", mk("call", "TwoFloat::recip", rpos[1]), ()):
+        return fail("exit is not `n > 0 ? result : recip(result)`")
+    R = rpos[1]
+    bit = mk("cmp", "ne", "u32", mk("i", "bitand", "u32", Nn, mk("const", "u32", 1)), mk("const", "u32", 0))
+    if body[0] != "if" or body[1] is not bit or body[2][0] != "backedge" or body[3][0] != "backedge":
+        return fail("loop body does not test the low bit of the remaining exponent")
+    def after(snap, hv):
+        l = hv_of[hv][0]
+        for ll, v in snap:
+            if ll == l:
+                return v
+    # identify the squared value: the havoc V with V' = V*V on both back edges
+    snap_t, snap_f = body[2][3], body[3][3]
+    Vv = None
+    for hv in hv_of:
+        if hv is not R and hv is not Nn and after(snap_t, hv) is N.norm(mk("call", "op:mul:TwoFloat:TwoFloat", hv, hv)):
+            Vv = hv
+    if Vv is None:
+        return fail("no variable is squared on every iteration")
+    sq = N.norm(mk("call", "op:mul:TwoFloat:TwoFloat", Vv, Vv))
+    half = mk("i", "shr", "u32", Nn, mk("const", "i32", 1))
+    conds = [after(snap_t, R) is N.norm(mk("call", "op:mul:TwoFloat:TwoFloat", R, Vv)), after(snap_f, R) is R,
+             after(snap_t, Vv) is sq, after(snap_f, Vv) is sq, after(snap_t, Nn) is half, after(snap_f, Nn) is half]
+    if not all(conds):
+        return fail("iteration is not { if bit { result *= value }; value *= value; n >>= 1 } (%s)" % conds)
+    init_ok = hv_of[R][1] is one and hv_of[Vv][1] is s and tag(hv_of[Nn][1]) == "call" and hv_of[Nn][1][1] == "core::num::<impl i32>::unsigned_abs" and hv_of[Nn][1][2] is P(1)
+    if not init_ok:
+        return fail("initial state is not (result, value, remaining) = (1, self, |n| without overflow): %s, %s, %s" % (vg.show(hv_of[R][1]), vg.show(hv_of[Vv][1]), vg.show(hv_of[Nn][1])))
+    rep.ok("R26", "powi square-and-multiply loop", detail="(result, value, k) = (1, self, unsigned_abs(n)); while k > 0 { if k&1 != 0 { result *= value }; value *= value; k >>= 1 }; n > 0 ? result : recip(result)")
